@@ -10,6 +10,7 @@ SimFrame *g_simframe;
 SimCPU g_simcpu;
 void (*g_cpu_yield_hook)(int kind, uintptr_t site) = nullptr;
 void (*g_sched_hook)(uintptr_t site) = nullptr;
+void (*g_after_call_hook)(void) = nullptr;
 
 static const size_t DEAD = 64 * 1024;  // poisoned bytes below the call's rsp
 static const size_t ABOVE = 32 + 64;   // 4 stack args + 64-byte canary
@@ -246,6 +247,8 @@ uint64_t Env::call(const char *entry, void *fn, std::initializer_list<uint64_t> 
         } else {
                 // a fault inside the library call
                 g_fault_armed = 0;
+                if (g_after_call_hook)
+                        g_after_call_hook();
                 long off = 0;
                 int bi = mem.find(g_fault.addr, &off);
                 std::string d, sig, cls;
@@ -361,5 +364,7 @@ stack_done:
                         }
         }
         scan_secrets = false;
+        if (g_after_call_hook)
+                g_after_call_hook();
         return rax;
 }
